@@ -20,6 +20,10 @@ def programs(tier):
             for ctx in ('return', 'if', 'nested', 'lambda', 'arg_of_call'):
                 out.append(Prog(o, (cs,), ctx, 'param', None))
                 out.append(Prog(o, (cs,), ctx, 'param_nested', None))
+                if ctx in ('return', 'nested'):
+                    out.append(Prog(o, (cs,), ctx, 'param_subclass', None))
+                    if not any(p[1] == PO for p in o):
+                        out.append(Prog(o, (cs,), ctx, 'param_kwo', None))
                 out.append(Prog(o, (cs,), ctx, 'param_kw', None))
                 out.append(Prog(o, (cs,), ctx, 'param_method', None))
                 if o and o[0][1] in (PO, POK):
@@ -43,7 +47,7 @@ def eval_prog(ld, st):
     cs = pr.calls[0]
     why = 'plain'
     exp = pl
-    if pr.route in ('param', 'param_nested', 'param_method'):
+    if pr.route in ('param', 'param_nested', 'param_kwo', 'param_subclass', 'param_method'):
         uva, uvk, hva, hvk = discovery.call_flags(pr, 0)
         if uva or uvk:
             try:
@@ -112,15 +116,13 @@ def eval_prog(ld, st):
     rshape = shape_of(sig)
     alpha = discovery.alphabet()
     ins = discovery.input_shapes(ld)
-    known = set(nm for s_ in ins for nm in space.names_of(s_)) | {'fn0'}
+    known = set(nm for s_ in ins for nm in space.names_of(s_)) | {'fn0', 'opt_'}
     if any(p[0] not in known for p in rshape):
         st.violation('partial-of-wrapper-signature', case, {'program': discovery.show_prog(ld), 'reported': str(sig),
                                                            'problem': 'parameter of neither wrapper nor callee'}, {'route': pr.route})
         return
-    if 'fn0' in [p[0] for p in rshape]:
-        rshape_b = tuple(p for p in rshape if p[0] != 'fn0')     # optional keyword-only fn0: never passed by the driver
-    else:
-        rshape_b = rshape
+    # optional keyword-only fn0 / opt_: never passed by the driver
+    rshape_b = tuple(p for p in rshape if not (p[0] in ('fn0', 'opt_') and p[1] == KWO and p[2]))
     bits = alpha.acc(rshape_b) & alpha.noncolliding(rshape_b, ins) & ~alpha.excluded(rshape_b)
     for s_ in ins:
         bits &= ~alpha.excluded(s_)
